@@ -7,6 +7,7 @@ import QuickAdd.Lemmas.Capture
 import QuickAdd.Props.C03
 import QuickAdd.Props.C06
 import QuickAdd.Lemmas.SearchWF
+import QuickAdd.Lemmas.SpanReach
 import QuickAdd.Props.C15
 /-!
 # C02 — every resolution is a well-formed calendar value; accessors never fail
@@ -284,6 +285,43 @@ theorem parse_candidates_ok {S : Type} (sc : Scorer S) (ts : Ts) (hts : ts.Valid
   split at hc
   · exact latentAll_ok ts hts _ (fun c hc => (search_candidates_ok sc ts hts o _ fuel c hc).1) c hc
   · exact (search_candidates_ok sc ts hts o _ fuel c hc).1
+
+/-- **the character span of every streamed candidate lies inside the (label-free, normalised) text, start before end** —
+    every production is an ordered, non-overlapping sequence (`Lemmas/Span`, `Lemmas/SpanReach`: no shipped pattern can match
+    blanks only, the DFS only joins adjacent matches, a rule result spans first-to-last argument) -/
+theorem candidate_span {S : Type} (sc : Scorer S) (ts : Ts) (o : Opts) (txt : List Nat) (fuel : Nat) :
+    ∀ c ∈ (searchCore sc ts o txt fuel).1.1, c.res.ms < c.res.me ∧ c.res.me ≤ txt.length := by
+  intro c hc
+  obtain ⟨p, rules, hr, hm, _⟩ := C15.search_sound sc ts o txt fuel c hc
+  exact (reach_span sc ts o.depth txt txt.length _ (initialStack_span sc _ _ _ txt fuel) p _ rules hr).2 c.res hm
+
+theorem latentAll_span {S : Type} (ts : Ts) (n : Nat) : ∀ (cs : List (Cand S)), (∀ c ∈ cs, c.res.ms < c.res.me ∧ c.res.me ≤ n) →
+    ∀ c ∈ (latentAll ts cs).1, c.res.ms < c.res.me ∧ c.res.me ≤ n := by
+  intro cs
+  induction cs with
+  | nil => intro _ c hc; simp [latentAll] at hc
+  | cons c0 cs ih =>
+    intro hall c hc
+    simp only [latentAll] at hc
+    cases hl : applyLatent ts c0.res with
+    | error e => simp [hl] at hc
+    | ok r =>
+      simp only [hl] at hc
+      rcases List.mem_cons.mp hc with rfl | hc
+      · have := latent_keeps_span ts c0.res r hl
+        have := hall c0 (by simp)
+        simp only; omega
+      · exact ih (fun c hc => hall c (List.mem_cons_of_mem _ hc)) c hc
+
+/-- … through `ctparse_gen`, latent on or off: inside the normalised text with the hashtags removed -/
+theorem parse_candidate_span {S : Type} (sc : Scorer S) (ts : Ts) (o : Opts) (raw : List Nat) (fuel : Nat) :
+    ∀ c ∈ (ctparseGen sc ts o raw fuel).cands, c.res.ms < c.res.me ∧ c.res.me ≤ (stripLabels (preprocess raw)).length := by
+  intro c hc
+  unfold ctparseGen at hc
+  simp only at hc
+  split at hc
+  · exact latentAll_span ts _ _ (fun c hc => candidate_span sc ts o _ fuel c hc) c hc
+  · exact candidate_span sc ts o _ fuel c hc
 
 /-! ### accessors on what the parser yields -/
 theorem podHours_range : (Gen.podHours.all fun e => decide (0 ≤ e.2.1 ∧ e.2.1 ≤ 23 ∧ 0 ≤ e.2.2 ∧ e.2.2 ≤ 23)) = true := by decide +kernel
